@@ -21,6 +21,8 @@ func checkC09(c *Ctx) {
 	r.Rule("C09.L3-signals-le-adds", "event-channel sends only in a goroutine spawned under pendingEvents>0, zeroed before the spawn", 1)
 	r.Rule("C09.L4-tracked", "goroutines tracked by wg; Close waits on every path", 3)
 	r.Rule("C09.L6-add", "Add increments pendingEvents and hands a token to the loop in one write-lock section", 1)
+	r.Rule("C09.L8-timer-rearm", "the window timer is re-armed (Reset) only after Stop, draining its channel when Stop reports it already fired", 1)
+	r.Rule("C09.L9-backoff-bounded", "backoffFactor grows only under currentDur < maxDelay (strict) and currentDur is clamped to maxDelay", 1)
 	r.Rule("C09.L7-handlers", "expiry fires before reset; first token fires immediately and opens initialDelay window; cap fires immediately", 3)
 
 	pkg := p.ModPath + "/events/ratelimiting"
@@ -230,4 +232,152 @@ func checkC09(c *Ctx) {
 	})
 	r.Check(firstFires && firstArms, "C09.L7-handlers", "events/ratelimiting.coalescing.handleInputCh first", p.Pos(hic.Pos()), "with no window open the token fires immediately and opens a window of initialDelay", "the first Add after an idle period is no longer signalled immediately with a window of initialDelay opened")
 	r.Check(capFires, "C09.L7-handlers", "events/ratelimiting.coalescing.handleInputCh cap", p.Pos(hic.Pos()), "reaching MaxPendingEvents fires immediately", "reaching the pending-events cap no longer fires immediately")
+
+	c09TimerRearm(c, pkg, fns)
+	c09Backoff(c, pkg, fns)
+}
+
+// c09TimerRearm: every Reset of coalescing.timer is dominated by a Stop of it
+// whose 'already fired' outcome (false) drains the timer channel; a stale tick
+// left in the channel closes the re-armed window at once.
+func c09TimerRearm(c *Ctx, pkg string, fns []*ssa.Function) {
+	r, p := c.R, c.P
+	isTimerCall := func(call *ssa.Call, name string) bool {
+		if !call.Call.IsInvoke() || call.Call.Method == nil || call.Call.Method.Name() != name {
+			return false
+		}
+		id, _, ok := fieldOfValue(call.Call.Value)
+		return ok && id.Type == pkg+".coalescing" && id.Field == "timer"
+	}
+	n := 0
+	for _, fn := range fns {
+		allInstrs(fn, func(in ssa.Instruction) {
+			reset, ok := in.(*ssa.Call)
+			if !ok || !isTimerCall(reset, "Reset") {
+				return
+			}
+			n++
+			okDrain := false
+			allInstrs(fn, func(j ssa.Instruction) {
+				stop, ok := j.(*ssa.Call)
+				if !ok || !isTimerCall(stop, "Stop") || !instrDominates(stop, reset) {
+					return
+				}
+				// the If testing Stop's result
+				for _, rr := range refs(stop) {
+					var ifi *ssa.If
+					neg := false
+					switch x := rr.(type) {
+					case *ssa.If:
+						ifi = x
+					case *ssa.UnOp:
+						if x.Op == token.NOT {
+							for _, r2 := range refs(x) {
+								if i2, ok := r2.(*ssa.If); ok {
+									ifi, neg = i2, true
+								}
+							}
+						}
+					}
+					if ifi == nil {
+						continue
+					}
+					falseSucc := ifi.Block().Succs[1]
+					if neg {
+						falseSucc = ifi.Block().Succs[0]
+					}
+					// a receive from the timer's channel in the region entered when Stop returned false, before the Reset
+					for blk := range reachableFrom(falseSucc, map[*ssa.BasicBlock]bool{reset.Block(): true}) {
+						if !edgeDominates(ifi.Block(), falseSucc, blk) {
+							continue
+						}
+						for _, k := range blk.Instrs {
+							switch y := k.(type) {
+							case *ssa.UnOp:
+								if y.Op == token.ARROW && strings.HasPrefix(chanIdent(y.X), "timer:") {
+									okDrain = true
+								}
+							case *ssa.Select:
+								for _, st := range y.States {
+									if st.Dir == types.RecvOnly && strings.HasPrefix(chanIdent(st.Chan), "timer:") {
+										okDrain = true
+									}
+								}
+							}
+						}
+					}
+				}
+			})
+			r.Check(okDrain, "C09.L8-timer-rearm", FuncName(p, fn)+" timer.Reset", p.Pos(reset.Pos()), "Stop, drain-if-fired, then Reset",
+				"the window timer is re-armed without stopping it and draining its channel when it had already fired: a stale expiry left in the channel closes the freshly extended window at once, so a burst inside one window yields several signals and the back-off restarts")
+		})
+	}
+	if n == 0 {
+		r.Violation("C09.L8-timer-rearm", "events/ratelimiting.coalescing timer.Reset", "-", "the window timer is never re-armed: later Adds do not extend the quiet window")
+	}
+}
+
+// c09Backoff: backoffFactor is multiplied only under a strict
+// currentDur < maxDelay test, and currentDur > maxDelay is clamped.
+func c09Backoff(c *Ctx, pkg string, fns []*ssa.Function) {
+	r, p := c.R, c.P
+	cur := FieldID{pkg + ".coalescing", "currentDur"}
+	max := FieldID{pkg + ".coalescing", "maxDelay"}
+	bf := FieldID{pkg + ".coalescing", "backoffFactor"}
+	n := 0
+	for _, fn := range fns {
+		allInstrs(fn, func(in ssa.Instruction) {
+			st, ok := in.(*ssa.Store)
+			if !ok {
+				return
+			}
+			fa, ok := st.Addr.(*ssa.FieldAddr)
+			if !ok || fieldIDOfAddr(fa) != bf {
+				return
+			}
+			bo, ok := st.Val.(*ssa.BinOp)
+			if !ok || (bo.Op != token.MUL && bo.Op != token.SHL && bo.Op != token.ADD) {
+				return // resets to a constant
+			}
+			n++
+			strict := false
+			for _, dc := range domConds(st.Block()) {
+				if cmp, ok := decodeCond(dc.If.Cond, dc.Branch); ok {
+					x, _, okx := fieldOfValue(cmp.X)
+					y, _, oky := fieldOfValue(cmp.Y)
+					if okx && oky && ((cmp.Op == token.LSS && x == cur && y == max) || (cmp.Op == token.GTR && x == max && y == cur)) {
+						strict = true
+					}
+				}
+			}
+			// clamp: a store currentDur = load maxDelay dominated by currentDur > maxDelay
+			clamp := false
+			allInstrs(fn, func(j ssa.Instruction) {
+				s2, ok := j.(*ssa.Store)
+				if !ok {
+					return
+				}
+				fa2, ok := s2.Addr.(*ssa.FieldAddr)
+				if !ok || fieldIDOfAddr(fa2) != cur {
+					return
+				}
+				if id, _, ok := fieldOfValue(s2.Val); ok && id == max {
+					for _, dc := range domConds(s2.Block()) {
+						if cmp, ok := decodeCond(dc.If.Cond, dc.Branch); ok {
+							x, _, okx := fieldOfValue(cmp.X)
+							y, _, oky := fieldOfValue(cmp.Y)
+							if okx && oky && (((cmp.Op == token.GTR || cmp.Op == token.GEQ) && x == cur && y == max) || ((cmp.Op == token.LSS || cmp.Op == token.LEQ) && x == max && y == cur)) {
+								clamp = true
+							}
+						}
+					}
+				}
+			})
+			r.Check(strict && clamp, "C09.L9-backoff-bounded", FuncName(p, fn)+" backoffFactor growth", p.Pos(st.Pos()), "factor grows only while currentDur < maxDelay; currentDur clamped to maxDelay",
+				"backoffFactor keeps growing once the window has reached maxDelay (the guard is not the strict currentDur < maxDelay) or currentDur is not clamped: after a few dozen Adds in one extended window initialDelay*factor overflows and the window collapses to zero/negative, so a long burst is signalled immediately and repeatedly")
+		})
+	}
+	if n == 0 {
+		r.Violation("C09.L9-backoff-bounded", "events/ratelimiting.coalescing backoffFactor growth", "-", "the quiet window no longer grows while events keep arriving")
+	}
 }
